@@ -16,6 +16,7 @@ import Mfi.Lemmas.SkelL
 import Mfi.Lemmas.AccL
 import Mfi.Props.C03
 import Mfi.Lemmas.WorldL
+import Mfi.Lemmas.WorldShape
 
 namespace Mfi.Props.C16
 open Mfi Mfi.Account Mfi.Gen
@@ -492,6 +493,34 @@ theorem world_leaves_sorted_array (c : Ctx) :
   · intro o h
     obtain ⟨_, i, s, x', _, _, _, hs⟩ := (close_ok h).core
     exact ⟨_, hs⟩
+
+end whole_instructions
+
+section whole_instructions
+open Mfi Mfi.World Mfi.Gen Mfi.Gen.Acc
+
+/-! ### the account structure over whole instructions and whole histories (Mfi/Model/World.lean) -/
+
+/-- **world_instruction_keeps_shape**: each of the five whole instructions, when it succeeds on an account whose slot
+    array has 16 slots, at most one active slot per bank and non-increasing bank keys, leaves such an array — whether it
+    opened a slot (`find_or_create`), rewrote one, or closed one, and re-sorted. -/
+theorem world_instruction_keeps_shape (c : Ctx) (hs : Shape c.a.slots) :
+    (∀ amt up o, World.deposit c amt up = .ok o → Shape o.slots) ∧
+    (∀ amt o, World.borrow c amt = .ok o → Shape o.slots) ∧
+    (∀ amt all o, World.withdraw c amt all = .ok o → Shape o.slots) ∧
+    (∀ amt all o, World.repay c amt all = .ok o → Shape o.slots) ∧
+    (∀ o, World.closeBalance c = .ok o → Shape o.slots) :=
+  ⟨fun _ _ _ h => deposit_shape h hs, fun _ _ h => borrow_shape h hs, fun _ _ _ h => withdraw_shape h hs,
+   fun _ _ _ h => repay_shape h hs, fun _ h => close_shape h hs⟩
+
+/-- **world_shape_history**: over EVERY history of whole instructions by any signers on any accounts and banks, every
+    account keeps 16 slots, at most one position per bank, and its positions ordered by bank key as the risk engine expects. -/
+theorem world_shape_history (w : WState) (ops : List WOp) (h : WShape w) : WShape (w.run ops) := run_shape ops w h
+
+/-- a fresh account (16 empty slots) has the shape -/
+theorem empty_account_shape : Shape (List.replicate 16 Account.emptySlot) := by
+  refine ⟨by simp, by simp [keys, Account.emptySlot, List.replicate, List.filter], ?_⟩
+  simp [List.pairwise_replicate]
 
 end whole_instructions
 
